@@ -54,10 +54,14 @@ func c01Check(c c01Case, rec *evid.Recorder) *Fail {
 		res := compile(p, cfg)
 		nomap := cfg
 		nomap.Map = false
-		if prev, ok := plain[nomap]; ok && prev != res.Code {
-			return failf("[%s] requesting a source map changes the generated code\nwith    %q\nwithout %q", cfg, res.Code, prev)
+		if _, ok := plain[nomap]; !ok {
+			twin := cfg
+			twin.Map = !cfg.Map
+			plain[nomap] = compile(p, twin).Code
 		}
-		plain[nomap] = res.Code
+		if prev := plain[nomap]; prev != res.Code {
+			return failf("[%s] requesting a source map changes the generated code\nthis configuration %q\nits twin           %q", cfg, res.Code, prev)
+		}
 		if cfg.Map && res.SourceMap == nil {
 			return failf("[%s] no source map returned", cfg)
 		}
